@@ -115,7 +115,7 @@ def _run_stream(path, drv, timeout=2400):
     total = {"cases": 0, "steps": 0, "problems": {}, "extra": {}}
     details = {}
     start = 0
-    for _ in range(8):
+    for _ in range(60):
         rc, out, err = xlib.run_bin("x05_stream", [path, "--drv", drv, "--from", str(start)], check=False, timeout=timeout)
         lines = vlib.jsonl(out)
         for l in lines:
@@ -131,7 +131,9 @@ def _run_stream(path, drv, timeout=2400):
         if "aborted_at" not in s:
             return total, details
         start = s["aborted_at"] + 1
-    raise vlib.ToolError("x05_stream keeps aborting (%s)" % path)
+    # the code under test panics / hangs in case after case: what was collected decides
+    total["extra"]["gave_up_after_restarts"] = 60
+    return total, details
 
 
 def _run_queue(path, timeout=1200):
